@@ -11,6 +11,8 @@ LABEL_RULES = [
     (r"(?:CS1|CS2|CancelCS|RelCS|TryCS)\((\d+)\)", "grant:c{1}"),
     (r"TryAcquire\((\d+),.*\)", "grant:c{1}"),
     (r"(?:Wake|WakeCtx)\((\d+)\)", None),
+    # Fine = TRUE only (never in the schedule graphs): grants of the park at the end of a critical section
+    (r"(?:EnterSel|Ret|RelRet)\((\d+)\)", "grant:c{1}"),
 ]
 FIX_F1 = True   # X models the code after the "fix:" commit for F1 (FALSE reproduces the pinned behaviour)
 
@@ -28,11 +30,15 @@ def mk_factory(sc):
     prog = [[dict(op=o["op"], w=bool(o.get("w", False)) or sc["kind"] == "mutex", c=bool(o.get("c", False)), k=o.get("k", 0) + 1) for o in cl] for cl in sc["clients"]]
 
     def mk(d, kind):
-        consts = ["Prog <- ScProg", "EagerWake = %s" % ("TRUE" if kind == "graph" else "FALSE")]
+        # kinds: "mc" (coarse granularity, all interleavings of wake-ups), "graph" (coarse, eager wake-ups:
+        # the controller's steps, source of the schedules), "fine" (model check only: the end of a critical
+        # section is a scheduling point too, as in sched.Exec.ParkUnl executions; the monitor is told)
+        consts = ["Prog <- ScProg", "EagerWake = %s" % ("TRUE" if kind == "graph" else "FALSE"),
+                  "Fine = %s" % ("TRUE" if kind == "fine" else "FALSE")]
         if base == "RWMutex":
             consts.append("FixF1 = %s" % ("TRUE" if FIX_F1 else "FALSE"))
         cfg = ["INIT Init", "NEXT Next", "CHECK_DEADLOCK FALSE", "CONSTANTS"] + [" " + c for c in consts]
-        if kind == "mc":
+        if kind in ("mc", "fine"):
             cfg += ["INVARIANTS TypeOK Agree NoResidue ModelSafe QuietInv" + (" WaitCount" if base == "RWMutex" else "")]
             if base == "RWMutex":
                 cfg += ["PROPERTY FailedPathsInert"]
@@ -40,14 +46,29 @@ def mk_factory(sc):
     return mk
 
 
+def fine_mc(wd, name, sc):
+    """X |= P at the fine granularity (the restated CsyncP must hold when a return is logged in a later step
+    than the decisive critical section: sched.Exec.ParkUnl executions). Model check only, no schedules."""
+    import shutil
+    d = vlib.spec_scratch(wd, name + "-fine", ["csync", "lib"])
+    mk_factory(sc)(d, "fine")
+    rf = vlib.run_tlc(d, "MC", "MC.cfg", workers=2, timeout=1200)
+    shutil.rmtree(d, ignore_errors=True)
+    return rf
+
+
 def models(wd, tier, seed):
+    from concurrent.futures import ThreadPoolExecutor
     states = trans = 0
     scheds, notes, names = [], [], []
     quick = tier == "quick"
-    for name in SCEN[tier] + ([] if quick else BIG):
-        if not os.path.exists(scen_path(name)):
-            continue
-        sc = json.load(open(scen_path(name)))
+    todo = [n for n in SCEN[tier] + ([] if quick else BIG) if os.path.exists(scen_path(n))]
+    scs = {n: json.load(open(scen_path(n))) for n in todo}
+    # the fine-granularity model checks run beside the coarse ones (the big configurations: coarse only)
+    pool = ThreadPoolExecutor(max_workers=2)
+    fine = [(n, pool.submit(fine_mc, wd, n, scs[n])) for n in todo if n not in BIG]
+    for name in todo:
+        sc = scs[name]
         big = name in BIG
         r, paths, nn = vlib.model_and_schedules(wd, name, mk_factory(sc), LABEL_RULES, seed, cap=600 if quick else 20000,
                                                 invariant_cfg={"specdirs": ["csync", "lib"]}, graph_cfg=None,
@@ -58,6 +79,14 @@ def models(wd, tier, seed):
         names.append(name)
         for i, p in enumerate(paths):
             scheds.append({"name": "%s/%d" % (name, i), "scenario": sc, "labels": p})
+    for name, f in fine:
+        rf = f.result()
+        vlib.log("[model] %s (fine): %d distinct states, %d transitions generated ok=%s" % (name, rf["distinct"], rf["states"], rf["ok"]))
+        states += rf["distinct"]
+        trans += rf["states"]
+        if not rf["ok"]:
+            notes.append("model %s (fine): %s %s" % (name, rf["error"], rf["violated"]))
+    pool.shutdown()
     return states, trans, scheds, notes, names
 
 
@@ -65,7 +94,9 @@ FAM = dict(driver="csync", specdirs=["csync", "lib"], monitor="CsyncPTrace", pro
            n_random={"quick": 4000, "thorough": 300000},
            x_specs=["csync/Mutex.tla", "csync/RWMutex.tla"], p_monitor="csync/CsyncP.tla",
            advisory=lambda wd, binp, seed, tier: x_conformance(wd, binp, seed, SCEN["quick"], nrand=100 if tier == "quick" else 2000),
-           assumptions=["CsyncP encodes the statement (DESIGN §3 C01/C02 interpretation): 'waiting writer' = observed blocked"])
+           assumptions=["CsyncP encodes the statement (DESIGN §3 C01/C02 interpretation): 'waiting writer' = observed blocked",
+                        "logged events bound the critical sections (CsyncP B1-B4); in executions where the end of a critical section "
+                        "is a park point (cfg fine) Phantom and WriterPref use the weaker, interval-based reading"])
 
 
 def run(prop, tier, seed):
@@ -94,7 +125,7 @@ def x_conformance(wd, binp, seed, names, nrand=150):
             continue
         d = vlib.spec_scratch(wd, "x-" + name, ["csync", "lib"])
         prog = [[dict(op=o["op"], w=bool(o.get("w", False)) or sc["kind"] == "mutex", c=bool(o.get("c", False)), k=o.get("k", 0) + 1) for o in cl] for cl in sc["clients"]]
-        consts = ["Prog <- ScProg", "EagerWake = FALSE"] + (["FixF1 = %s" % ("TRUE" if FIX_F1 else "FALSE")] if base == "RWMutex" else [])
+        consts = ["Prog <- ScProg", "EagerWake = FALSE", "Fine = FALSE"] + (["FixF1 = %s" % ("TRUE" if FIX_F1 else "FALSE")] if base == "RWMutex" else [])
         vlib.write_mc(d, "MCX", base + "XTrace", ["ScProg == " + vlib.json2tla(prog)],
                       ["INIT TInit", "NEXT TNext", "CHECK_DEADLOCK FALSE", "CONSTANTS"] + [" " + c for c in consts])
         vf = os.path.join(d, "verdict.json")
